@@ -1,6 +1,7 @@
 package processor
 
 import (
+	"github.com/lab5e/lospan/pkg/verifgate"
 	"time"
 
 	"github.com/lab5e/lospan/pkg/lg"
@@ -61,13 +62,17 @@ func (s *Scheduler) sendAt(delay time.Duration,
 	output chan<- server.LoRaMessage,
 	frameContext server.FrameContext,
 	doneChannel chan protocol.EUI) {
+	verifgate.Gate("enter:sendAt")
+	defer verifgate.Gate("exit:sendAt")
 
 	time.Sleep(delay)
 	payload, err := s.buildMessageToSend(device, frameContext)
 	// If there's an error there's no data to send.
 	if err == nil {
+		verifgate.Gate("handoff:schedOutput")
 		output <- payload
 	}
+	verifgate.Gate("handoff:done")
 	doneChannel <- device.DeviceEUI
 }
 
@@ -89,16 +94,19 @@ func (s *Scheduler) Start() {
 			// duplicate/invalid data checks.
 			if s.scheduled[device.DeviceEUI] {
 				lg.Info("Found duplicate message from device with EUI %s", device.DeviceEUI)
+				verifgate.Gate("sched:duplicate")
 				continue
 			}
 
 			// this isn't a duplicate. Add it
 			s.scheduled[device.DeviceEUI] = true
+			verifgate.Gate("sched:scheduled")
 			go s.sendAt(s.calculateRxDelay(message), device, s.output, message.FrameContext, s.completed)
 
 		case eui := <-s.completed:
 			// Message has been sent. Remove it from the map
 			delete(s.scheduled, eui)
+			verifgate.Gate("sched:completed")
 		}
 	}
 }
